@@ -108,6 +108,8 @@ def build(cfg, log, setting=None):
     opt_args = {"momentum": cfg["mun"] / cfg["mud"]} if cfg["mun"] else {}
     if setting is not None:        # an OptimizerSetting object the caller shares between several Solvers
         pass
+    elif cfg.get("opt") == "two":
+        setting = mk_setting(cfg)
     elif cfg["ssize"] > 0:
         setting = tp.OptimizerSetting(torch.optim.SGD, lr=cfg["lrn"] / cfg["lrd"], **({"optimizer_args": opt_args} if opt_args else {}),
                                       scheduler_class=torch.optim.lr_scheduler.StepLR,
@@ -139,6 +141,7 @@ def snapshot(objs, trainer=None):
         def buf(p_):
             b = bufs.get(id(p_))
             return [rat(v) for v in b.detach().reshape(-1)] if b is not None else []
+        st["n"] = sorted({int(s_["n"]) for s_ in opt.state.values() if "n" in s_})          # (optimizer "two": its step counters)
         st["va"], st["vb"] = buf(m.lin.weight), buf(m.lin.bias)
         st["vk"] = buf(objs["kap"].as_tensor)
         st["vl"] = buf(objs["adapt"].adaptive_layer.weight) if objs["adapt"] is not None else []
@@ -159,6 +162,33 @@ class Logger(pl.Callback):
         self.rec.append({"e": "val_end", "st": snapshot(self.objs, trainer)})
 
 
+class TwoEval(torch.optim.Optimizer):
+    """the optimizer "two" of Training.tla: two closure evaluations per step (half a step after each) and a python int in the state
+    (n = steps done; the second half step is doubled from the second step on).  Exact on dyadic rationals."""
+
+    def __init__(self, params, lr=0.25):
+        super().__init__(params, dict(lr=lr))
+
+    @torch.no_grad()
+    def step(self, closure):
+        with torch.enable_grad():
+            closure()
+        for g in self.param_groups:
+            for p in g["params"]:
+                if p.grad is not None:
+                    p.add_(p.grad, alpha=-g["lr"] / 2)
+        with torch.enable_grad():
+            loss = closure()
+        for g in self.param_groups:
+            for p in g["params"]:
+                if p.grad is not None:
+                    st = self.state[p]
+                    n = st.get("n", 0)
+                    p.add_(p.grad, alpha=-g["lr"] / 2 * (1 if n == 0 else 2))
+                    st["n"] = n + 1
+        return loss
+
+
 def mk_setting(cfg):
     """the OptimizerSetting of a configuration as ONE object (C19 hands the same object to all its Solvers)"""
     opt_args = {"momentum": cfg["mun"] / cfg["mud"]} if cfg["mun"] else {}
@@ -166,6 +196,9 @@ def mk_setting(cfg):
     if cfg["ssize"] > 0:
         kw.update(scheduler_class=torch.optim.lr_scheduler.StepLR, scheduler_args={"step_size": cfg["ssize"], "gamma": cfg["gn"] / cfg["gd"]},
                   scheduler_frequency=cfg["freq"])
+    if cfg.get("opt") == "two":
+        kw.pop("optimizer_args", None)
+        return tp.OptimizerSetting(TwoEval, lr=cfg["lrn"] / cfg["lrd"], **kw)
     return tp.OptimizerSetting(torch.optim.SGD, lr=cfg["lrn"] / cfg["lrd"], **kw)
 
 
